@@ -10,4 +10,7 @@ Init == i \in 1..Len(Recs) /\ ph = 0
 Next == ph = 0 /\ ph' = 1 /\ UNCHANGED i
 R == Recs[i]
 C14_CallbackAtomic == ph = 1 => (R.entered /\ ~R.during /\ R.wdone)
+\* records of flipOne: the owner of a live element moves its ValidUntil between "an hour ahead" and "never" (for the sequential
+\* cache: nothing happens); no concurrent look-up misses it, no store-if-absent replaces it, no sweep removes it
+C14_LiveStaysLive == (ph = 1 /\ "lost" \in DOMAIN R) => R.lost = 0
 =============================================================================
